@@ -70,7 +70,18 @@ pub fn run_stores(scs: &[Scenario]) -> bool {
         store: std::sync::Mutex::new(None),
         gate: std::sync::Mutex::new(None),
         read_state_in_callbacks: cbread,
+        mw_dispatch: std::sync::Mutex::new(HashMap::new()),
     });
+    for (k, rest) in &sc.extra {
+        // mwd <middleware> <r|e|d> <action> <dispatched action>
+        if k == "mwd" && rest.len() >= 4 {
+            if let (Ok(m), Some(h), Ok(a), Ok(b)) =
+                (rest[0].parse::<u32>(), rest[1].chars().next(), rest[2].parse(), rest[3].parse())
+            {
+                ctx.mw_dispatch.lock().unwrap().insert((m, h, a), b);
+            }
+        }
+    }
     if !delays.is_empty() {
         let d = delays.clone();
         *ctx.gate.lock().unwrap() = Some(Arc::new(move |kind: &str, id: u32, a: u32| {
